@@ -334,6 +334,7 @@ func concScenarios() []*engine.Scenario {
 func init() {
 	hk.Register("C07", func(ctx *engine.Ctx) {
 		cacheScale(ctx)
+		svcResize(ctx)
 		for _, sc := range concScenarios() {
 			engine.ExploreS(ctx, sc, engine.SConfig{Bound: -1, Shard: ctx.Shard, NShards: ctx.NShards, Deadline: ctx.Deadline})
 		}
@@ -347,6 +348,8 @@ func init() {
 			json.Unmarshal(rp.Input, &sc)
 			hk.Guard(sub, "cache-seq", sc, func() { runSeq(sub, "cache-seq", sc) })
 			return sub.Res.Findings
+		case "svc-resize":
+			return replaySvc(rp)
 		case "cache-scale":
 			var sc scaleCase
 			json.Unmarshal(rp.Input, &sc)
